@@ -164,7 +164,8 @@ def _run_hypothesis(part, tier, seedval, n):
     stats = Stats()
     t0 = time.time()
     budget = part.budget_s[tier]
-    state = {"failed": False}
+    state = {"failed": False, "first": None}
+    recent = collections.deque(maxlen=12)      # the cases executed just before a failure, in order
 
     @hypothesis.seed(seedval)
     @settings(max_examples=n, deadline=None, database=None, derandomize=False,
@@ -177,10 +178,14 @@ def _run_hypothesis(part, tier, seedval, n):
         if not state["failed"] and time.time() - t0 > budget:
             stats.skipped_budget += 1
             return
+        if not state["failed"]:
+            recent.append(case)
         res = execute(part, case)
         if not state["failed"]:
             stats.record(case, res)
         if res.violations:
+            if not state["failed"]:
+                state["first"] = {"case": case, "violations": res.violations, "sequence": list(recent)}
             state["failed"] = True
             stats.failure = {"case": case, "violations": res.violations}
             raise _Violation(res.violations[0])
@@ -192,10 +197,15 @@ def _run_hypothesis(part, tier, seedval, n):
     except HarnessError as exc:
         stats.error = str(exc)
     except BaseException as exc:  # hypothesis health checks, flaky, unsatisfiable ...
-        if stats.failure is not None and type(exc).__name__ in ("FlakyFailure", "Flaky"):
-            stats.error = "flaky case (fails, then passes on re-execution): %s\n%s" % (
-                canonical(stats.failure["case"])[:2000], traceback.format_exc())
-            stats.failure = None
+        if state["first"] is not None and type(exc).__name__ in ("FlakyFailure", "Flaky", "FlakyReplay"):
+            # The case violated the property when it ran after the preceding cases, but not when re-executed: the code
+            # under test carries state from one case to the next (the harness itself is a pure function of the case and
+            # resets the documented process-wide state). The observed violation stands; the replay file keeps the
+            # sequence of cases that led to it.
+            first = state["first"]
+            first["violations"] = ["(order-dependent: observed after the %d preceding cases of this process, not when run alone - "
+                                   "state leaks between independent objects) %s" % (len(first["sequence"]) - 1, first["violations"][0])] + first["violations"][1:]
+            stats.failure = first
         else:
             stats.error = "".join(traceback.format_exception(type(exc), exc, exc.__traceback__))
     return stats
@@ -260,6 +270,8 @@ def write_replay(pid, part, failure, seed, tier):
     os.makedirs(os.path.join(ROOT, "replays"), exist_ok=True)
     body = {"property": pid, "part": part, "case": failure["case"],
             "violations": failure["violations"], "seed": seed, "tier": tier}
+    if failure.get("sequence"):
+        body["sequence"] = failure["sequence"]
     h = hashlib.sha1(canonical([part, failure["case"]]).encode()).hexdigest()[:12]
     rel = os.path.join("replays", "%s-%s.json" % (pid, h))
     with open(os.path.join(ROOT, rel), "w") as f:
@@ -272,6 +284,8 @@ def replay(mod, path):
         body = json.load(f)
     parts = {p.name: p for p in mod.PARTS}
     part = parts[body["part"]]
+    for earlier in body.get("sequence", [])[:-1]:
+        execute(part, earlier)             # order-dependent failure: re-create the state left by the preceding cases
     res = execute(part, body["case"])
     for v in res.violations:
         print("  violation:", v)
